@@ -2,7 +2,7 @@
    Print Assumptions.  Costs are integers (dyadic floats scaled by 2^30; 2^-26 is 16). *)
 From Coq Require Import ZArith List Bool.
 From Centro Require Import Base.Sx Model.Lapjv Spec.Lapjv Proofs.LapjvCert Proofs.LapjvRefute Proofs.LapjvTrack
-  Proofs.LapjvPhases Proofs.LapjvAbstract Proofs.LapjvGrid Proofs.LapjvArr Proofs.LapjvRows Proofs.LapjvTrackCost Proofs.LapjvRt Proofs.LapjvHall Proofs.LapjvBsearch Proofs.LapjvTrackLink Proofs.LapjvArrExt Proofs.LapjvExtModel Proofs.LapjvAugMarks Proofs.LapjvAugFlip Proofs.LapjvAugPred Proofs.LapjvAugRows.
+  Proofs.LapjvPhases Proofs.LapjvAbstract Proofs.LapjvGrid Proofs.LapjvArr Proofs.LapjvRows Proofs.LapjvTrackCost Proofs.LapjvRt Proofs.LapjvHall Proofs.LapjvBsearch Proofs.LapjvTrackLink Proofs.LapjvArrExt Proofs.LapjvExtModel Proofs.LapjvAugMarks Proofs.LapjvAugFlip Proofs.LapjvAugPred Proofs.LapjvAugRows Proofs.LapjvPerm Proofs.LapjvFixedPerm Proofs.LapjvAugFuel.
 Import ListNotations.
 Open Scope Z_scope.
 
@@ -372,6 +372,59 @@ Theorem C01_aug_scan_nonempty_partial : forall r n inf rows y v fuel s res,
   forall s1, refill r n y inf s = (s1, None) -> g_scan s1 <> [].
 Proof. exact aug_scan_nonempty. Qed.
 Print Assumptions C01_aug_scan_nonempty_partial.
+
+(* fuel of the Dijkstra loop: one column joins `ready` per iteration and |ready| <= n, so from a loop head with
+   n < fuel + |ready| (in particular at the start of aug_row: fuel S (S n), ready empty) a None result is not the out-of-fuel
+   exit - it is None at every larger fuel too (empty rebuild of scan, or failed cost lookup). *)
+Theorem C01_aug_loop_fuel : forall (r n : nat) (rows : list (list (nat * ext))) (y : list nat) (v : list ext) (inf : ext),
+  (forall i j c, In (j, c) (row rows i) -> (j < n)%nat) ->
+  forall fuel s, Marks r n s -> (n < fuel + length (g_ready s))%nat ->
+  aug_loop fuel r n inf rows y v s = None ->
+  forall fuel', (fuel <= fuel')%nat -> aug_loop fuel' r n inf rows y v s = None.
+Proof. exact aug_loop_fuel. Qed.
+Print Assumptions C01_aug_loop_fuel.
+
+(* completeness of phases 1-3 (every row is pending or assigned) ... *)
+Theorem C01_phase1_comp : forall n tri,
+  Comp n (y_init n (x_init n (min_i n tri))) (free_rows n (min_i n tri)).
+Proof. exact phase1_comp. Qed.
+Print Assumptions C01_phase1_comp.
+
+Theorem C01_arr_passes_comp : forall (n : nat) (rows : list (list (nat * ext))),
+  (forall i j c, In (j, c) (row rows i) -> (j < n)%nat) ->
+  forall eps epsr fuel k x y v ii x' y' v' ii',
+  length y = n -> Comp n y ii ->
+  arr_passes k fuel eps epsr n rows (x, y, v, ii) = Some (x', y', v', ii') ->
+  length y' = n /\ Comp n y' ii'.
+Proof. exact arr_passes_comp. Qed.
+Print Assumptions C01_arr_passes_comp.
+
+(* ... and the structural half of lapjv_fixed_cert, end to end (Full): for the (Fixed, eps 0 at :202, any eps >= 0 at :208,
+   any k) model, on every input with indices in range, no pair listed twice, every column mentioned and a perfect matching:
+   WHENEVER lapjv() returns, x is a perfect matching over listed pairs and x, y are mutually inverse permutations.
+   (Chain: phase1_inv/comp -> reduction transfer keeps Inv -> InvE + Pending + Comp through k passes of augmenting row
+   reduction -> per free row: pred chain, flip keeps partial inverses, one more assigned column -> count -> pigeonhole;
+   listedness from the closing slackness loop.)  Not covered: that it returns (aug_scan_nonempty, fuel) and the dual half. *)
+Theorem C01_lapjv_fixed_pm : forall n tri,
+  (forall t, In t tri -> (t_i t < n)%nat /\ (t_j t < n)%nat) ->
+  NoDup (map fst tri) ->
+  (forall j, (j < n)%nat -> exists t, In t tri /\ t_j t = j) ->
+  has_PM n tri ->
+  forall epsr k x y u v, 0 <= epsr ->
+  lapjv Fixed 0 epsr k n tri = Some (x, y, u, v) -> PM n tri x /\ Inverse n x y.
+Proof. exact lapjv_fixed_pm. Qed.
+Print Assumptions C01_lapjv_fixed_pm.
+
+(* the same with the eps band on, for costs on a grid coarser than eps (e.g. integer costs: g = 2^30 against 16) *)
+Theorem C01_lapjv_fixed_pm_grid : forall n tri g eps epsr k x y u v,
+  (forall t, In t tri -> (t_i t < n)%nat /\ (t_j t < n)%nat) ->
+  NoDup (map fst tri) ->
+  (forall j, (j < n)%nat -> exists t, In t tri /\ t_j t = j) ->
+  has_PM n tri ->
+  0 <= eps < g -> 0 <= epsr < g -> (forall t, In t tri -> (g | t_c t)) ->
+  lapjv Fixed eps epsr k n tri = Some (x, y, u, v) -> PM n tri x /\ Inverse n x y.
+Proof. exact lapjv_fixed_pm_grid. Qed.
+Print Assumptions C01_lapjv_fixed_pm_grid.
 
 (* tracker identity with the scaling link: integer costs z = q * s (s > 0) of rational costs q that vanish on the
    diagonal, are non-negative, and positive off the diagonal in the m object rows; and the match cost of
